@@ -1,7 +1,7 @@
 #!/bin/sh
 # usage: tools/seedcheck.sh <dir-with-patch.diff> <property>...
 # applies the seeded change to /repo, runs the quick checks of the given properties, and undoes it straight afterwards
-d=$1; shift
+d=$(realpath "$1"); shift
 cd /verif || exit 2
 git -C /repo diff --quiet || { echo "/repo is dirty"; exit 2; }
 git -C /repo apply "$d/patch.diff" || { echo "patch does not apply"; exit 2; }
